@@ -251,6 +251,241 @@ def _marker_ok(marker: str, v: str) -> Optional[bool]:
             "==": cur == (a, b), "!=": cur != (a, b)}[op]
 
 
+def wf1_unbound_names(ctx: Ctx) -> None:
+    """WF-1 no name is looked up globally that nothing binds.  The suite runs on one interpreter and never imports the other
+    interpreters' modules or enters their branches, so a NameError there (an assignment or import dropped, a helper renamed in
+    one place) is invisible to it.  Scopes are taken from the compiler's own symbol table (stdlib `symtable` over the source
+    text): a name that a function / class scope resolves as an implicit global must be bound at module level (assignment, import,
+    def, class, anywhere in the module body) or be a builtin of every supported interpreter"""
+    import symtable
+    DUNDER = {"__class__", "__name__", "__file__", "__doc__", "__package__", "__spec__", "__loader__", "__builtins__", "__debug__", "__qualname__", "__module__", "__annotations__", "__path__", "__dict__",
+              "reveal_type", "__import__"}
+    n = 0
+    for mod in ctx.P.analysed_mods():
+        try:
+            top = symtable.symtable(mod.src, mod.path, "exec")
+        except SyntaxError as ex:
+            raise AnalysisError(f"WF-1: {mod.name} does not parse: {ex}")
+        bound = {s_.get_name() for s_ in top.get_symbols() if s_.is_assigned() or s_.is_imported() or s_.is_namespace() or s_.is_parameter()}
+        star = any(isinstance(x, ast.ImportFrom) and any(a.name == "*" for a in x.names) for x in ast.walk(ast.parse(mod.src)))
+        if star:
+            ctx.R.ok("WF-1", f"{mod.name}: star import", "not checked")
+            continue
+        # names used only inside `if TYPE_CHECKING:` / annotations are never evaluated (from __future__ import annotations)
+        src_tree = ast.parse(mod.src)
+        evaluated = set()
+        future_ann = any(isinstance(x, ast.ImportFrom) and x.module == "__future__" and any(a.name == "annotations" for a in x.names) for x in src_tree.body)
+
+        def collect(node: ast.AST, in_ann: bool) -> None:
+            for fld, val in ast.iter_fields(node):
+                ann = in_ann or (future_ann and fld in ("annotation", "returns"))
+                for ch in (val if isinstance(val, list) else [val]):
+                    if isinstance(ch, ast.AST):
+                        if isinstance(ch, ast.Name) and isinstance(ch.ctx, ast.Load) and not ann:
+                            evaluated.add((ch.id, ch.lineno))
+                        collect(ch, ann)
+        collect(src_tree, False)
+        ev_names = {nm for nm, _ in evaluated}
+
+        def walk(tab, path):
+            nonlocal n
+            for ch in tab.get_children():
+                walk(ch, path + [ch.get_name()])
+            if tab.get_type() == "module":
+                return
+            for s_ in tab.get_symbols():
+                nm = s_.get_name()
+                if not (s_.is_global() and s_.is_referenced()) or s_.is_declared_global() and s_.is_assigned():
+                    continue
+                n += 1
+                if nm in bound or nm in DUNDER or nm not in ev_names:
+                    continue
+                bs = _builtin_set(ctx, nm)
+                if bs == frozenset(ctx.V.all):
+                    continue
+                lines = sorted(ln for x, ln in evaluated if x == nm)
+                where = f"stackscope/{mod.name}.py:{lines[0] if lines else tab.get_lineno()}"
+                miss = "" if not bs else f" (a builtin only under {fmt(bs)})"
+                ctx.R.fail("WF-1", mod, None, f"{'.'.join(path)} reads the global name `{nm}`, which nothing in stackscope.{mod.name} binds{miss}: NameError when that line runs "
+                           f"({where}); code the 3.12 suite never imports or enters is only checked here", qualname=f"{mod.name}.{'.'.join(path)}", construct=f"unbound global {nm} in {'.'.join(path)}")
+        walk(top, [])
+    if n < 200:
+        raise AnalysisError(f"WF-1: only {n} implicit-global references examined")
+    ctx.R.ok("WF-1", f"{n} implicit-global references in {len(ctx.P.analysed_mods())} modules", "each bound at module level or a builtin of every supported interpreter")
+
+
+def wf2_valued_returns(ctx: Ctx) -> None:
+    """WF-2 a function annotated to return a value returns one on every path: no path falls off the end (or reaches a bare
+    `return`) of a function whose return annotation is neither None / Optional / Any nor an iterator-like type of a generator.
+    Like WF-1 this matters where the suite cannot look: `inspect_frame` of the 3.9/3.10 reader returning None is invisible on 3.12"""
+    n = 0
+    for mod in ctx.P.analysed_mods():
+        for q, fn in mod.defs.items():
+            if not isinstance(fn, (ast.FunctionDef, ast.AsyncFunctionDef)) or fn.returns is None:
+                continue
+            r = ast.unparse(fn.returns).strip("'\"")
+            if r in ("None", "Any", "object", "NoReturn", "typing.Any") or r.startswith(("Optional[", "Union[", "Iterator[", "Generator[", "Iterable[", "AsyncIterator[", "AsyncGenerator[", "ContextManager[")) \
+                    or "None" in r or r in ("T", "bool"):
+                continue
+            if any(isinstance(x, (ast.Yield, ast.YieldFrom)) for x in walk_scope(fn)):
+                continue
+            if any(norm(d).split(".")[-1] in ("overload", "abstractmethod") for d in fn.decorator_list):
+                continue
+            if len(fn.body) == 1 and isinstance(fn.body[0], ast.Expr) and isinstance(fn.body[0].value, ast.Constant):
+                continue     # `...` / docstring-only stubs
+            if fn.body and isinstance(fn.body[-1], ast.Raise) and len([s for s in fn.body if not (isinstance(s, ast.Expr) and isinstance(s.value, ast.Constant))]) == 1:
+                continue     # raise NotImplementedError
+            n += 1
+            g = ctx.cfg(fn)
+            live_ = g.reachable_from(g.entry)
+            bare = [x for x in walk_scope(fn) if isinstance(x, ast.Return) and x.value is None and id(x) in g.by_ast and g.by_ast[id(x)].idx in live_]
+            falls = g.falls_off_end() if hasattr(g, "falls_off_end") else None
+            if bare:
+                ctx.R.fail("WF-2", mod, bare[0], f"{q} is declared to return `{r}` but has a bare `return`: its callers get None", construct=f"{q}: bare return")
+            elif falls:
+                ctx.R.fail("WF-2", mod, fn, f"{q} is declared to return `{r}` but a path reaches the end of its body without a return: its callers get None (e.g. `details.blocks` on None) "
+                           "-- invisible to the suite when the function lives in a module or branch the 3.12 run never enters", construct=f"{q}: falls off the end")
+            elif falls is False:
+                ctx.R.ok("WF-2", f"{mod.name}.{q} -> {r}", "every path ends in `return <value>` or raises")
+    if n < 30:
+        raise AnalysisError(f"WF-2: only {n} value-returning functions examined")
+
+
+def wf3_internal_call_arity(ctx: Ctx) -> None:
+    """WF-3 every call of a module-level function or dataclass of the package binds its arguments: not more positional arguments
+    than parameters, no keyword the callee does not have, no required parameter left out.  A TypeError at such a call is an
+    ordinary test failure where the suite goes, and invisible where it does not (the other interpreters' modules and branches).
+    Callees are resolved through `from .mod import name`, `from . import mod` + attribute, and same-module definitions that are
+    bound exactly once; decorated functions, classes with bases or an explicit __init__, and calls with * / ** are skipped"""
+    import symtable
+
+    def top_defs(mod):
+        out = {}
+        counts = {}
+        for n in ast.walk(mod.tree):
+            if isinstance(n, ast.Name) and isinstance(n.ctx, ast.Store) and mod.enclosing_def(n) is None:
+                counts[n.id] = counts.get(n.id, 0) + 1
+        for n in mod.tree.body:
+            if isinstance(n, (ast.FunctionDef, ast.AsyncFunctionDef, ast.ClassDef)):
+                counts[n.name] = counts.get(n.name, 0) + 1
+                out[n.name] = n
+        return {k: v for k, v in out.items() if counts.get(k) == 1}
+
+    def signature(d):
+        """(positional names, n required positional, keyword-only {name: required}, has *args, has **kw) or None"""
+        if isinstance(d, (ast.FunctionDef, ast.AsyncFunctionDef)):
+            if d.decorator_list:
+                return None
+            a = d.args
+            pos = [x.arg for x in a.posonlyargs + a.args]
+            nreq = len(pos) - len(a.defaults)
+            kwo = {x.arg: dv is None for x, dv in zip(a.kwonlyargs, a.kw_defaults)}
+            return pos, nreq, kwo, a.vararg is not None, a.kwarg is not None, len(a.posonlyargs)
+        if isinstance(d, ast.ClassDef):
+            decs = [norm(x.func) if isinstance(x, ast.Call) else norm(x) for x in d.decorator_list]
+            if not decs or any(x.split(".")[-1] != "dataclass" for x in decs) or d.bases or any(isinstance(m_, ast.FunctionDef) and m_.name in ("__init__", "__new__") for m_ in d.body):
+                return None
+            if any(isinstance(x, ast.Call) and any(k.arg in ("init", "kw_only") for k in x.keywords) for x in d.decorator_list):
+                return None
+            pos, nreq = [], 0
+            for f_ in d.body:
+                if isinstance(f_, ast.AnnAssign) and isinstance(f_.target, ast.Name) and "ClassVar" not in norm(f_.annotation):
+                    pos.append(f_.target.id)
+                    if f_.value is None:
+                        nreq = len(pos)
+                    elif isinstance(f_.value, ast.Call) and norm(f_.value.func).split(".")[-1] == "field" and not any(k.arg in ("default", "default_factory") for k in f_.value.keywords):
+                        nreq = len(pos)
+                    elif isinstance(f_.value, ast.Call) and norm(f_.value.func).split(".")[-1] == "field" and any(k.arg == "init" for k in f_.value.keywords):
+                        return None
+            return pos, nreq, {}, False, False, 0
+        return None
+
+    tops = {m.name: top_defs(m) for m in ctx.P.analysed_mods()}
+    n = 0
+    for mod in ctx.P.analysed_mods():
+        imported: Dict[str, Tuple[str, str]] = {}
+        modalias: Dict[str, str] = {}
+        for x in mod.tree.body:
+            if isinstance(x, ast.ImportFrom) and x.level == 1:
+                for a in x.names:
+                    if x.module and x.module in tops:
+                        imported[a.asname or a.name] = (x.module, a.name)
+                    elif x.module is None and a.name in tops:
+                        modalias[a.asname or a.name] = a.name
+        try:
+            top = symtable.symtable(mod.src, mod.path, "exec")
+        except SyntaxError:
+            continue
+        for c in ast.walk(mod.tree):
+            if not isinstance(c, ast.Call):
+                continue
+            target = None
+            if isinstance(c.func, ast.Name):
+                nm = c.func.id
+                fn_ = mod.enclosing_def(c)
+                # shadowed by a local / parameter / nested def of an enclosing function?
+                shadow = False
+                e_ = fn_
+                while e_ is not None:
+                    if isinstance(e_, (ast.FunctionDef, ast.AsyncFunctionDef, ast.Lambda)):
+                        ps = {a.arg for a in e_.args.posonlyargs + e_.args.args + e_.args.kwonlyargs} | ({e_.args.vararg.arg} if e_.args.vararg else set()) | ({e_.args.kwarg.arg} if e_.args.kwarg else set())
+                        if nm in ps or any((isinstance(y, ast.Name) and isinstance(y.ctx, ast.Store) and y.id == nm) or (isinstance(y, (ast.FunctionDef, ast.AsyncFunctionDef, ast.ClassDef)) and y.name == nm and y is not e_)
+                                           or (isinstance(y, ast.ExceptHandler) and y.name == nm) or (isinstance(y, (ast.Import, ast.ImportFrom)) and any((a.asname or a.name.split(".")[0]) == nm for a in y.names))
+                                           for y in walk_scope(e_)):
+                            shadow = True
+                    elif isinstance(e_, ast.ClassDef) and any(isinstance(y, (ast.FunctionDef, ast.AsyncFunctionDef)) and y.name == nm for y in e_.body):
+                        pass
+                    e_ = mod.enclosing_def(e_)
+                if shadow:
+                    continue
+                if nm in tops[mod.name]:
+                    target = (mod.name, tops[mod.name][nm])
+                elif nm in imported and imported[nm][1] in tops[imported[nm][0]]:
+                    target = (imported[nm][0], tops[imported[nm][0]][imported[nm][1]])
+            elif isinstance(c.func, ast.Attribute) and isinstance(c.func.value, ast.Name) and c.func.value.id in modalias and c.func.attr in tops[modalias[c.func.value.id]]:
+                target = (modalias[c.func.value.id], tops[modalias[c.func.value.id]][c.func.attr])
+            elif isinstance(c.func, ast.Attribute) and isinstance(c.func.value, ast.Name):
+                # Outer.Inner(...): a class nested in a package-level class (FrameDetails.FinallyBlock)
+                nm = c.func.value.id
+                outer = None
+                if nm in tops[mod.name]:
+                    outer = (mod.name, tops[mod.name][nm])
+                elif nm in imported and imported[nm][1] in tops[imported[nm][0]]:
+                    outer = (imported[nm][0], tops[imported[nm][0]][imported[nm][1]])
+                if outer is not None and isinstance(outer[1], ast.ClassDef):
+                    inner = [y for y in outer[1].body if isinstance(y, ast.ClassDef) and y.name == c.func.attr]
+                    if len(inner) == 1:
+                        target = (outer[0], inner[0])
+            if target is None:
+                continue
+            sig = signature(target[1])
+            if sig is None or any(isinstance(a, ast.Starred) for a in c.args) or any(k.arg is None for k in c.keywords):
+                continue
+            pos, nreq, kwo, var, kw, npo = sig
+            n += 1
+            npos = len(c.args)
+            kws = [k.arg for k in c.keywords]
+            what = None
+            if npos > len(pos) and not var:
+                what = f"{npos} positional arguments for {len(pos)} parameters"
+            else:
+                unknown = [k for k in kws if k not in pos[npo:] and k not in kwo and not kw]
+                dup = [k for k in kws if k in pos[:npos]]
+                missing = [p_ for i, p_ in enumerate(pos[:nreq]) if i >= npos and p_ not in kws] + [k for k, req in kwo.items() if req and k not in kws]
+                if unknown:
+                    what = f"unknown keyword argument(s) {unknown}"
+                elif dup:
+                    what = f"argument(s) {dup} given both by position and by keyword"
+                elif missing:
+                    what = f"required argument(s) {missing} not given"
+            if what:
+                ctx.R.fail("WF-3", mod, c, f"`{norm(c)[:70]}` calls {target[0]}.{target[1].name} with {what}: TypeError when this line runs -- an ordinary test failure where the 3.12 suite goes, "
+                           "invisible in the modules and branches of the other interpreters", construct=f"{mod.qualname_of(c)}: {norm(c.func)}(...) {what}")
+    if n < 60:
+        raise AnalysisError(f"WF-3: only {n} internal calls resolved")
+    ctx.R.ok("WF-3", f"{n} calls of package-level functions / dataclasses", "arguments bind to the callee's parameters")
+
+
 def ver3_bindings(ctx: Ctx) -> None:
     """VER-3 a name used under versions U is bound under every V in U"""
     import re
@@ -638,6 +873,6 @@ def ver5b_dynamic_attr_names(ctx: Ctx) -> None:
         raise AnalysisError(f"VER-5b: {n} string-named introspection attributes found (>= 2 confirmed by hand: hasattr(referent, 'ag_frame' / 'cr_frame'))")
 
 
-RULES = [ver0_compiles, ver1_opcodes, ver2_dispatch, ver3_bindings, opc4_names, ver4_stdlib_api, ver5_introspection_attrs, ver5b_dynamic_attr_names]
+RULES = [ver0_compiles, ver1_opcodes, ver2_dispatch, ver3_bindings, opc4_names, ver4_stdlib_api, ver5_introspection_attrs, ver5b_dynamic_attr_names, wf1_unbound_names, wf2_valued_returns, wf3_internal_call_arity]
 
-API = [ver3_bindings, ver4_stdlib_api, ver5_introspection_attrs, ver5b_dynamic_attr_names]
+API = [ver3_bindings, ver4_stdlib_api, ver5_introspection_attrs, ver5b_dynamic_attr_names, wf1_unbound_names, wf2_valued_returns, wf3_internal_call_arity]
